@@ -1068,6 +1068,78 @@ func c08FailedBackgroundTruncation(w *core.WorkerCtx) {
 	}
 }
 
+// c08BrokenSync: a joining node syncs through the real client and the stream breaks - the peer's call fails after 0, 1,
+// 3 vertices or at the very end, or a vertex arrives that the wire check refuses. The sync returns with an error; after
+// it every operation on the joiner's ledger must still return (balance, DAG stream, genesis creation, another sync).
+func c08BrokenSync(w *core.WorkerCtx) {
+	r := w.R
+	rng := core.Rand(w.Seed, "C08sync", w.Batch)
+	desc := fmt.Sprintf("c08 sync over the real client from a peer whose stream breaks seed=%d batch=%d", w.Seed, w.Batch)
+	w.Mark("%s", desc)
+	world := ledger.NewWorld(rng, w.R, []string{"C08"}, 0, desc)
+	defer world.Close()
+	if _, err := ledger.Setup(world, ledger.Profile{Nodes: 1, Users: 4, SupplyClass: 0, Delivery: "lockstep"}); err != nil {
+		r.Inconc("setup failed: " + err.Error())
+		return
+	}
+	src := world.Nodes[0]
+	world.Quiet = true
+	for i := 0; i < 12; i++ {
+		t := world.NewTrx(world.Users[0], world.Users[1+i%3].Addr, spice.Melange{SupplementaryCurrency: uint64(1 + i)}, nil)
+		world.Propose(src, &t, "grow")
+	}
+	st := recordStream(src)
+	type fault struct {
+		name             string
+		failAfter, badAt int
+	}
+	for _, f := range []fault{{"clean", -1, -1}, {"peer-fails-before-the-first-vertex", 0, -1}, {"peer-fails-after-1", 1, -1}, {"peer-fails-after-3", 3, -1}, {"peer-fails-at-the-end", len(st), -1}, {"unacceptable-wire-vertex-first", -1, 0}, {"unacceptable-wire-vertex-third", -1, 2}} {
+		w.Mark("broken sync: %s", f.name)
+		book, returned, release := syncJoiner(&streamPeer{stream: cloneStream(st), failAfter: f.failAfter, badAt: f.badAt})
+		if book == nil {
+			continue
+		}
+		r.Eval(1)
+		r.Count("c08_broken_sync_cases", 1)
+		wedged := ""
+		if !returned {
+			wedged = "the sync call itself"
+		}
+		probe := func(what string, fn func()) {
+			if wedged != "" {
+				return
+			}
+			done := make(chan struct{})
+			go func() { defer close(done); fn() }()
+			select {
+			case <-done:
+			case <-time.After(20 * time.Second):
+				wedged = what
+			}
+		}
+		probe("CalculateBalance after the sync returned", func() { book.CalculateBalance(context.Background(), world.Users[1].Addr) })
+		probe("StreamDAG after the sync returned", func() {
+			ctx, cancel := context.WithCancel(context.Background())
+			for range book.StreamDAG(ctx) {
+			}
+			cancel()
+		})
+		probe("ReadTransactionByHash after the sync returned", func() { book.ReadTransactionByHash(context.Background(), st[0].Transaction.Hash) })
+		r.Nontriv(fmt.Sprintf("broken-sync/%s/loaded=%v/wedged=%v", f.name, wedged == "" && book.DagLoaded(), wedged != ""))
+		if wedged != "" {
+			sig, detail := gmon.Signature()
+			if sig == "" {
+				r.Inconc("watchdog fired on " + wedged + " (" + f.name + ") without a recognisable goroutine signature")
+			} else {
+				r.Violate("C08", "wedged/after-broken-sync/"+sig, fmt.Sprintf("sync case %s: %s did not return; goroutine states: %s\n%s", f.name, wedged, sig, detail), nil)
+			}
+			release()
+			return
+		}
+		release()
+	}
+}
+
 func c08Worker(w *core.WorkerCtx) {
 	maxN := w.Pick(7, 40)
 	switch w.Batch % 4 {
@@ -1085,6 +1157,7 @@ func c08Worker(w *core.WorkerCtx) {
 		c08DropUnderReaders(w)
 		c08CrossTrafficWhileJoining(w)
 		c08FailedBackgroundTruncation(w)
+		c08BrokenSync(w)
 		c08AsyncCancel(w)
 	}
 }
